@@ -39,10 +39,14 @@ def cases(rng, tier):
         for p, sh, t in itertools.product(PRODUCERS, SHAPES, TERMS):
             for sk in (["default", "immediate", "own_ct"] if p in ("from_iterable", "range") else ["default"]):
                 yield {"op": "subscribe_run", "producer": p, "shape": sh, "term": t, "sched": sk, "n": rng.randrange(1, 6)}
+        # the same thread earlier ran a pipeline that crashed out of subscribe() (its observer raised while another never-ending
+        # step-wise source still had a step queued on the current-thread trampoline): later pipelines must be unaffected
+        for p, sh, t in itertools.product(PRODUCERS, ["direct", "map_filter", "merge"], ["take", "first", "element_at"]):
+            yield {"op": "subscribe_run", "producer": p, "shape": sh, "term": t, "sched": "default", "n": rng.randrange(1, 6), "prelude": "crash"}
 
 
 def model_request(case):
-    if case["shape"] not in LINEAR or case["term"] == "take_until":
+    if case.get("prelude") or case["shape"] not in LINEAR or case["term"] == "take_until":
         return None
     return {"op": "subscribe_run", "shared": case["sched"] == "default", "n": needed(case["term"], case["n"]), "fuel": BUDGET}
 
@@ -71,6 +75,22 @@ def _run(case):
             yield i
             i += 1
 
+    if case.get("prelude") == "crash":
+        fault = [True]
+
+        def flaky(item):
+            if fault[0] and item[0] == "B" and item[1] == 1:
+                fault[0] = False
+                raise ValueError("observer failed once")
+            if item[1] > BUDGET:
+                raise Budget()
+
+        a = rx.range(0, 10 ** 9).pipe(ops.map(lambda n: ("A", n)))
+        b = rx.generate(0, lambda s: True, lambda s: s + 1).pipe(ops.map(lambda n: ("B", n)))
+        try:
+            rx.merge(a, b).subscribe(flaky)
+        except ValueError:
+            pass
     sched = {"default": None, "immediate": ImmediateScheduler(), "own_ct": CurrentThreadScheduler()}[schedk]
     if producer == "from_iterable": src = rx.from_iterable(infinite(), scheduler=sched).pipe(ops.map(count))
     elif producer == "range": src = rx.range(0, 10 ** 9, scheduler=sched).pipe(ops.map(count))
@@ -157,3 +177,5 @@ def nontrivial(case, out):
 
 def bucket(case, out):
     yield f"{case['producer']}:{case['sched']}:{'bounded' if bounded(case, out) else out['status']}"
+    if case.get("prelude"):
+        yield "prelude:" + case["prelude"]
